@@ -173,7 +173,7 @@ class FakeSockMod(object):
 
 
 # ---------------------------------------------------------------- the real selector on a real descriptor
-def real_selector_family(rep):
+def real_selector_family(rep, only=None):
     """the platform selector (poll/select) on a real socketpair: when the descriptor is closed under the running loop --
     session.close() from another thread, as `with ws:` does, or the socket object closed directly -- the iterator must
     still end with Disconnected"""
@@ -185,7 +185,7 @@ def real_selector_family(rep):
     import lomond.session as S
     import lomond.websocket as W
     n = 0
-    for how in ("session.close", "socket.close"):
+    for how in (only or ("session.close", "socket.close")):
         a, b = rsock.socketpair()
         b.settimeout(5)
 
@@ -323,6 +323,26 @@ def run(rep, info, model, tier, seed):
 
 def replay(body):
     sc = fam.unjson_sc(body["scenario"])
+    if sc.get("kind") == "real-selector":
+        class R(object):
+            def __init__(self):
+                self.v, self.b, self.families = [], [], []
+
+            def add_case(self, *a, **k):
+                pass
+
+            def violation(self, what, **k):
+                self.v.append(what)
+
+            def broken(self, what):
+                self.b.append(what)
+        r = R()
+        real_selector_family(r, only=(sc["how"],))
+        if r.b:
+            print(r.b[0])
+            return 2
+        print("REPLAY:", ("VIOLATION reproduced: %s" % r.v[0]) if r.v else "property holds on this input")
+        return 1 if r.v else 0
     if sc.get("kind") == "connect_each":
         complaint, exp, res, log = judge_connect(sc["resolve_ok"], sc["create_ok"], sc["connect_ok"], bool(sc.get("v6")))
         print("socket module calls:", log)
